@@ -18,7 +18,8 @@ Theorem C08_shutdown_terminates : forall ls s s',
   (count_progress ls + meas s' <= meas s)%nat.
 Proof. exact shutdown_terminates. Qed.
 
-(** the emptiness assertion holds when it is reached, and the manager never panics; *)
+(** the active-peer set is already empty when the cleanup step is reached (nothing is reported
+    lost twice), and the manager never panics; *)
 Theorem C08_assertion_holds : forall ls s,
   no_teardown ls = true -> run init ls = Some s -> ph s = MAssert -> entries s = [].
 Proof. exact assertion_holds. Qed.
@@ -43,22 +44,24 @@ Theorem C08_at_most_one_shutdown_accepted : forall ls s,
   run init ls = Some s -> (n_accepted (calls s) <= 1)%nat.
 Proof. exact at_most_one_shutdown_accepted. Qed.
 
-(** With runtime teardown the statements "never panics" and "never hangs" are FALSE of the
-    faithful model.  Findings F3 / F4: witnesses below; partial versions above (no Cancel /
-    AcceptNone steps). *)
-Theorem C08_teardown_never_panics_refuted :
-  exists ls s, run init ls = Some s /\ ph s = MPanicked.
-Proof. exact teardown_never_panics_refuted. Qed.
+(** Runtime teardown at any moment (handler tasks cancelled in any order, accept() yielding None):
+    no schedule leads to a panic.  On the pinned code two such schedules did (unwrapped
+    cancelled JoinError in the loop; emptiness assertion in shutdown()): findings F3, repaired
+    by a fix: commit; the same schedules now end well (C08_former_teardown_witnesses). *)
+Theorem C08_teardown_never_panics : forall ls s s',
+  ph s <> MPanicked -> run s ls = Some s' -> ph s' <> MPanicked.
+Proof. exact never_panics. Qed.
 
-Theorem C08_teardown_assertion_refuted :
-  exists ls s, run init ls = Some s /\ ph s = MPanicked
-               /\ existsb (fun l => match l with Join _ => true | _ => false end) ls = true
-               /\ forallb (fun l => match l with Cancel _ => true | _ => negb (teardown_label l) end) ls = true.
-Proof. exact teardown_assertion_refuted. Qed.
+Theorem C08_former_teardown_witnesses :
+  (exists s, run init [Incoming; InboundDone true 7; Cancel 0; Join 0] = Some s /\ ph s = MLoop)
+  /\ (exists s, run init [Incoming; InboundDone true 7; Submit CShutdown; Process; Cancel 0; AbortPending;
+                         Join 0; AllJoined; Assert; Finish] = Some s
+                 /\ ph s = MDone /\ entries s = [] /\ lost_events s = 1%nat).
+Proof. exact former_teardown_witnesses. Qed.
 
-Theorem C08_teardown_never_spins_refuted :
-  exists ls s, run init ls = Some s /\ step s AcceptNone = Some s.
-Proof. exact teardown_never_spins_refuted. Qed.
+Theorem C08_cleanup_reports_leftovers : forall s s',
+  step s Assert = Some s' -> entries s' = [] /\ lost_events s' = (lost_events s + length (entries s))%nat.
+Proof. exact cleanup_reports_leftovers. Qed.
 
 Example C08_ex :
   match run init [Incoming; InboundDone true 7; ReqStart 0; Submit CConnect; Process; Submit CShutdown; Submit CShutdown;
@@ -75,6 +78,6 @@ Print Assumptions C08_never_panics_without_teardown.
 Print Assumptions C08_post_state.
 Print Assumptions C08_late_calls_err.
 Print Assumptions C08_at_most_one_shutdown_accepted.
-Print Assumptions C08_teardown_never_panics_refuted.
-Print Assumptions C08_teardown_assertion_refuted.
-Print Assumptions C08_teardown_never_spins_refuted.
+Print Assumptions C08_teardown_never_panics.
+Print Assumptions C08_former_teardown_witnesses.
+Print Assumptions C08_cleanup_reports_leftovers.
